@@ -6,8 +6,10 @@ import (
 	"bytes"
 	"context"
 	"encoding/json"
+	"errors"
 	"fmt"
 	mrand "math/rand"
+	"net"
 	"os"
 	"os/exec"
 	"runtime"
@@ -38,6 +40,9 @@ type c13Case struct {
 	Seed  int64  `json:"seed"`
 	Auth  string `json:"auth,omitempty"`  // "" | LOGIN | SCRAM-SHA-256 | PLAIN: every dial-up authenticates
 	SMIME bool   `json:"smime,omitempty"` // about half of the messages are S/MIME signed (one shared certificate value)
+	// Fallback: the Client is configured with a fallback port (WithTLSPortPolicy(TLSOpportunistic): 587, then 25);
+	// nothing answers on the primary port, the reference server is reached through the fallback
+	Fallback bool `json:"fallback_port,omitempty"`
 }
 
 type c13Viol struct {
@@ -109,6 +114,16 @@ func c13Run(c c13Case) c13Report {
 		return sc
 	}}
 	copts := []mail.Option{mail.WithDialContextFunc(farm.Dial), mail.WithTLSPolicy(mail.NoTLS), mail.WithTimeout(30 * time.Second), mail.WithHELO("client.verif.example")}
+	if c.Fallback {
+		dial := func(ctx context.Context, network, address string) (net.Conn, error) {
+			if strings.HasSuffix(address, ":587") {
+				time.Sleep(jitter() + 50*time.Microsecond) // a refused connection takes a moment, too
+				return nil, &net.OpError{Op: "dial", Net: network, Err: errors.New("connection refused (nothing listens on the primary port)")}
+			}
+			return farm.Dial(ctx, network, address)
+		}
+		copts = []mail.Option{mail.WithDialContextFunc(dial), mail.WithTLSPortPolicy(mail.TLSOpportunistic), mail.WithTimeout(30 * time.Second), mail.WithHELO("client.verif.example")}
+	}
 	if c.Auth != "" {
 		copts = append(copts, mail.WithSMTPAuth(authTypeNoEnc(c.Auth)), mail.WithUsername("c13user"), mail.WithPassword("c13-secret-pass"))
 	}
@@ -399,6 +414,9 @@ func c13Child(args []string) int {
 	if len(args) > 5 {
 		c.SMIME = args[5] == "smime"
 	}
+	if len(args) > 6 {
+		c.Fallback = args[6] == "fallback"
+	}
 	rep := c13Run(c)
 	b, _ := json.Marshal(rep)
 	fmt.Printf("C13REPORT %s\n", b)
@@ -407,7 +425,7 @@ func c13Child(args []string) int {
 
 func runC13(r *ev.Run, rep *ev.ReplayDoc) ev.Summary {
 	sum := ev.Summary{
-		Rule: "G in {2,4,8,16,32,64} goroutines, each sending a batch of 1-3 distinct messages (unique ids and envelopes, 100 B - 300 KB, some with producers that yield or sleep between chunks, in every third repetition about half of them S/MIME signed through SignWithTLSCertificate with one shared certificate value) through ONE mail.Client: all via Send on one established connection, all via DialAndSend, and mixed; the reference server adds seeded latency jitter to every reply and reads DATA slowly. Every repetition runs in its own child process built with -race. non-trivial = at least two Sends were in flight at a commit instant; distinct by commit order",
+		Rule: "G in {2,4,8,16,32,64} goroutines, each sending a batch of 1-3 distinct messages (unique ids and envelopes, 100 B - 300 KB, some with producers that yield or sleep between chunks, in every third repetition about half of them S/MIME signed through SignWithTLSCertificate with one shared certificate value) through ONE mail.Client: all via Send on one established connection, all via DialAndSend, and mixed (in half of the DialAndSend / mixed repetitions the Client has a fallback port and nothing answers on the primary one); the reference server adds seeded latency jitter to every reply and reads DATA slowly. Every repetition runs in its own child process built with -race. non-trivial = at least two Sends were in flight at a commit instant; distinct by commit order",
 		Assumptions: []string{
 			"exactly-once, envelope/content pairing and transaction contiguity are judged from the reference server's per-connection logs; expected renderings are produced after all sends returned",
 			"porcupine (v1.3.0) checks that the shared connection's commit log is a linearization of the Send calls w.r.t. an append-only-log model; a checker timeout is inconclusive",
@@ -417,7 +435,7 @@ func runC13(r *ev.Run, rep *ev.ReplayDoc) ev.Summary {
 	}
 	exe, _ := os.Executable()
 	runChild := func(c c13Case) {
-		cmd := exec.Command(exe, "child", "c13", c.Mode, fmt.Sprint(c.G), fmt.Sprint(c.Rep), fmt.Sprint(c.Seed), c.Auth, map[bool]string{true: "smime", false: "plain"}[c.SMIME])
+		cmd := exec.Command(exe, "child", "c13", c.Mode, fmt.Sprint(c.G), fmt.Sprint(c.Rep), fmt.Sprint(c.Seed), c.Auth, map[bool]string{true: "smime", false: "plain"}[c.SMIME], map[bool]string{true: "fallback", false: "direct"}[c.Fallback])
 		cmd.Env = os.Environ()
 		var outb, errb bytes.Buffer
 		cmd.Stdout, cmd.Stderr = &outb, &errb
@@ -488,6 +506,9 @@ func runC13(r *ev.Run, rep *ev.ReplayDoc) ev.Summary {
 		if c.Auth != "" {
 			r.Count("runs_with_authentication_"+c.Auth, 1)
 		}
+		if c.Fallback {
+			r.Count("runs_through_a_fallback_port", 1)
+		}
 		r.Eval(cr.CommitOrder, cr.MaxInFlight >= 2)
 	}
 	if rep != nil {
@@ -515,7 +536,12 @@ func runC13(r *ev.Run, rep *ev.ReplayDoc) ev.Summary {
 					auth = ""
 				}
 				// every third repetition has S/MIME signed messages among the others (one certificate value for all)
-				cases = append(cases, c13Case{Mode: mode, G: g, Rep: i, Seed: r.Seed, Auth: auth, SMIME: (i+g/2)%3 == 1})
+				cs := c13Case{Mode: mode, G: g, Rep: i, Seed: r.Seed, Auth: auth, SMIME: (i+g/2)%3 == 1}
+				// per-call connections through a fallback port (no AUTH: the session is unencrypted and opportunistic)
+				if mode != "shared" && (i+g/4)%2 == 1 {
+					cs.Fallback, cs.Auth = true, ""
+				}
+				cases = append(cases, cs)
 			}
 		}
 	}
